@@ -116,10 +116,11 @@ func init() {
 				st.be.armed.Store(true)
 			}
 			if a[3] != "-" {
+				st.be.onEnter = func() { os.WriteFile(a[3]+".entered", nil, 0o600) }
 				st.be.onAcquire = func() { os.WriteFile(a[3], nil, 0o600) }
 			}
 			_, err := st.ring.AddKey(symDescription(material(d)))
-			st.be.onGate, st.be.onAcquire = nil, nil
+			st.be.onGate, st.be.onEnter, st.be.onAcquire = nil, nil, nil
 			if err != nil {
 				return "res 0"
 			}
@@ -389,8 +390,12 @@ func runLockLifeProcs(hist, sa, ua string, maxWait time.Duration) lifeResult {
 	overlap, uFinished := false, false
 	if !sFinished {
 		t0 = time.Now()
+		var tEnter time.Time // when u was first seen inside Lock(): the bounded wait starts there
 	wait:
 		for {
+			if tEnter.IsZero() && exists(acq+".entered") {
+				tEnter = time.Now()
+			}
 			if exists(acq) {
 				overlap = true // u's Lock returned while s sits between its Get and its Put
 				break
@@ -406,7 +411,7 @@ func runLockLifeProcs(hist, sa, ua string, maxWait time.Duration) lifeResult {
 				res.waiterSeen = true
 				break
 			}
-			if time.Since(t0) > maxWait {
+			if (!tEnter.IsZero() && time.Since(tEnter) > maxWait) || time.Since(t0) > 10*time.Second {
 				break
 			}
 			time.Sleep(300 * time.Microsecond)
